@@ -117,6 +117,11 @@ structure Env where
   bundles : List Bundle
 deriving DecidableEq, Repr
 
+/-- `Intention.UpdatePrecedence` in CE (namespaces are never wildcards): exact destination 9 / 8,
+    wildcard destination 6 / 5 -/
+def precOf (src dst : Name) : Nat :=
+  (if dst = star then 6 else 9) - (if src = star then 1 else 0)
+
 /-! ## sorting -/
 
 def bLt (a b : Name) : Bool := decide (a < b)
